@@ -270,6 +270,14 @@ def trace_validate(tracemod, tracefile, nshards=1, env=None, timeout=1500, specd
         e.update(env)
     r = tlc(tracemod, cfg=cfg, workers=max(1, min(nshards, NCPU)), specdir=specdir or os.path.join(SPEC, "trace"), env=e,
             timeout=timeout, deadlock=False)
+    # A record on which TLC cannot even evaluate the Level-A relation (an index outside a sequence the record should have filled, a value of the
+    # wrong kind, ...) is an observation outside the relation's domain: the real code produced something the property has no reading for.  It is
+    # reported like a record that does not conform (with the reason), not as a tooling failure -- the unchanged tree produces no such record.
+    if r["error"] and str(r["error"]).startswith("Evaluating invariant") and not r["violated"]:
+        mm = re.search(r"Evaluating invariant \S+ failed\.\n(.*?)\nError: The behavior", r["out"], re.S)
+        r["ill_formed"] = (mm.group(1).strip()[:400] if mm else "not evaluable")
+        r["violated"] = "Conforms (not evaluable on this record: %s)" % r["ill_formed"]
+        r["error"] = None
     bad = None
     if r["violated"] or r.get("post_violated"):
         m = re.findall(r"/\\ ti = (\d+)", r["out"])
